@@ -180,6 +180,10 @@ def main(tier, write_baseline=False):
     from cddvc import e1
 
     e1_refuted = e1.run_contracts(run, "contracts.C08")
+    # the class / pydantic emitters write a str default through pure_utils.quote and read the literal back with one pair of
+    # quotes removed: the exact contract of `quote` (contracts/C01.py: the text itself between two marks, nothing rewritten
+    # inside) is what makes the attribute hold the described default -- verified here under C04 as well
+    e1_refuted += e1.run_contracts(run, "contracts.C01", only={"cdd.shared.pure_utils:quote", "cdd.shared.pure_utils:unquote"})
     for name, ok, detail in shape_obligations():
         st = UNDECIDED if ok is None else (PROVED if ok else REFUTED)
         run.add("C04/shape/" + name, st, "rule-engine", detail=detail)
@@ -216,6 +220,8 @@ def main(tier, write_baseline=False):
         pool = domain.param_pool(TYPES, docs=["the {name}", "The {name} of it."])
         irs = list(domain.irs(1, pool, suffix_defaults=True)) + list(domain.irs(3 if tier == "thorough" else 2, pool, sample=150 if tier == "quick" else 1500, seed=run.seed, suffix_defaults=True))
         undocumented = [domain.make_ir(c, doc="") for c in [(("int", 1, None),), (), (("str", domain.ABSENT, None), ("int", 2, None))]]
+        # str defaults with quote characters inside (not wrapped in a matching pair): the emitters must not rewrite them
+        undocumented += [domain.make_ir(((t_, d_, "the {name}"),)) for t_ in ("str", "Optional[str]") for d_ in ('say "hi" to them', 'a"b', "it's", 'w"')]
         cells = [(f, s, e) for f in ("class", "function", "argparse") for s in ("rest", "google", "numpydoc") for e in (False, True)]
         n, raised, fails = M.run(cells, irs + undocumented, exposes)
         run.bounded.append({
@@ -239,7 +245,7 @@ def main(tier, write_baseline=False):
         seen_.add(o["name"])
         cand = next(((c_, ir_, w_) for k_, (c_, ir_, w_) in fails.items() if k_[0] == "default"), None)
         run.violation(o["name"], "obligation refuted by %s on path %s" % (o["backend"], " ".join(o["trace"])),
-                      failing_input=common.model_replay("contracts.C08", o) or ({"cell": list(cand[0]), "ir": json.loads(json.dumps(cand[1], default=str)), "what": cand[2][:300]} if cand else None),
+                      failing_input=common.model_replay("contracts.C08", o) or common.model_replay("contracts.C01", o) or ({"cell": list(cand[0]), "ir": json.loads(json.dumps(cand[1], default=str)), "what": cand[2][:300]} if cand else None),
                       solver_output={"model": o["model"], "smt2": (o["smt2"] or "")[:3000]})
     M.report(run, "C04/bounded", fails)
     M.flush_raise_baseline()
